@@ -1022,6 +1022,43 @@ func pagedSetCase(pre int, codec int, rs []rec) (string, string) {
 	return op, out
 }
 
+// pagedSetV1Case: RecordSet.WriteTo (version 1, codec 0..4) appended to a real page buffer that already holds `pre` bytes
+func pagedSetV1Case(pre int, codec int, rs []rec) (string, string) {
+	op := fmt.Sprintf("pwset1 %d %d %s -", pre, codec, recsArg(rs, false))
+	out := ""
+	res := guard2(func() {
+		pb := protocol.VerifNewPageBuffer()
+		defer pb.Unref()
+		prefix := make([]byte, pre)
+		for i := range prefix {
+			prefix[i] = byte(i % 251)
+		}
+		pb.Write(prefix)
+		set := protocol.RecordSet{Version: 1, Attributes: protocol.Attributes(codec), Records: protocol.NewRecordReader(toProtoRecords(rs)...)}
+		if _, err := pb.WriteRecordSet(&set); err != nil {
+			out = "error"
+			return
+		}
+		from := pre - 16
+		if from < 0 {
+			from = 0
+		}
+		tail := pb.ReadAt(int(pb.Size())-from, int64(from))
+		out = wb(tail)
+		if codec != 0 {
+			plain := "-"
+			if d, err := decompressWith(codec, tail[pre-from+4+34:]); err == nil {
+				plain = wb(d)
+			}
+			op = fmt.Sprintf("pwset1 %d %d %s %s", pre, codec, recsArg(rs, false), plain)
+		}
+	})
+	if res != "" {
+		return op, res
+	}
+	return op, out
+}
+
 // pbufCase: a random sequence of operations on a real pageBuffer; sizes and offsets gather around multiples of the
 // 64 KiB page size
 func pbufCase(r *rand.Rand, steps int) (string, string) {
@@ -1393,6 +1430,16 @@ func main() {
 		}
 		ops, res := pagedSetCase(r.Intn(50), 0, genRecs(r, 1+r.Intn(3), 0, true))
 		emit(ops, res)
+		// the v1 writer: per-message back-patches at +8/+12 across the boundary; compressed: scan, Truncate, wrapper
+		m1 := 6
+		if thorough {
+			m1 = 40
+		}
+		for i := 0; i < m1; i++ {
+			pre := 65536 - 40 + r.Intn(44)
+			ops, res := pagedSetV1Case(pre, []int{0, 0, 1, 2, 3, 4}[i%6], genRecs(r, 1+r.Intn(3), 0, false))
+			emit(ops, res)
+		}
 	}
 
 	// --- crc validation
